@@ -118,6 +118,27 @@ func Forward(r *rec) error {
 	return check(r, 5)
 }
 
+// a return inside a loop: expanded in early mode (labelled once-loop)
+func firstBig(rs []*rec, limit int) (*rec, error) {
+	for _, r := range rs {
+		if r == nil {
+			return nil, fmt.Errorf("nil record")
+		}
+		if r.n > limit {
+			return r, nil
+		}
+	}
+	return nil, nil
+}
+
+func Early(rs []*rec) int {
+	r, err := firstBig(rs, 3)
+	if err != nil || r == nil {
+		return 0
+	}
+	return r.n
+}
+
 // a call among otherwise pure results of a return
 func Part(r *rec) (int, error) {
 	return 7, check(r, 3)
@@ -193,11 +214,15 @@ func TestInlinerSmoke(t *testing.T) {
 		"a.name = \"x\"",           // variadic loop unrolled with the element substituted
 		"b.name = \"x\"",
 		"a.n += 2",                 // closure expanded with both arguments substituted
-		"s.byName(a.name)",         // a search loop with a return stays a call (postcondition instead)
+		"break inlonce",            // a search loop with a return inside is expanded in early mode
 	} {
 		if !strings.Contains(body, want) {
 			t.Errorf("expected %q in the expanded Caller:\n%s", want, body)
 		}
+	}
+	earlyTxt := ov[strings.Index(ov, "func Early"):strings.Index(ov, "func Part")]
+	if strings.Contains(earlyTxt, "firstBig(") || !strings.Contains(earlyTxt, "break inlonce") {
+		t.Errorf("helper with a return inside a loop not expanded in early mode:\n%s", earlyTxt)
 	}
 	part := ov[strings.Index(ov, "func Part"):strings.Index(ov, "type namer")]
 	if strings.Contains(part, "check(") || !strings.Contains(part, "return 7, inl_r") {
